@@ -434,6 +434,16 @@ theorem evaluate_again_same (w : World) (p : Program) (between : List Program) :
   rw [override_local, List.map_append, List.map_singleton]
   exact List.getLast?_concat ..
 
+/-- **the order of a history does not matter**: evaluating the same programs in another order (build all first and evaluate
+later, interleave two applications, …) gives every program the same outcome -/
+theorem history_order_irrelevant (w : World) (ps qs : List Program) (h : ps.Perm qs) :
+    ((w.run ps).2).Perm ((w.run qs).2) := by
+  rw [override_local, override_local]; exact h.map _
+
+theorem history_split (w : World) (ps qs : List Program) :
+    (w.run (ps ++ qs)).2 = (w.run ps).2 ++ (w.run qs).2 := by
+  simp [override_local]
+
 /-- **a list binds every callable under its `__name__`; of several with the same name the LAST one** — for every list
 (generalises `list_binding_last_wins`), and every other name still reaches `base_functions` -/
 theorem list_binding_lookup (base : FMap) (fs : List Callable) (chain : List FMap)
